@@ -117,6 +117,7 @@ pub trait Api {
     fn read_set(r: &mut Self::Reader, set: &mut Self::Set, n: Option<usize>) -> Option<Result<(), (ErrObs, String)>>;
     fn iter_set(set: &Self::Set, ctx: &mut MonCtx) -> Vec<RecObs>;
     fn set_len(set: &Self::Set) -> usize;
+    fn shrink_set(set: &mut Self::Set);
     fn set_monitors(set: &Self::Set, ctx: &mut MonCtx);
     fn position(r: &Self::Reader) -> Option<(u64, u64)>;
     fn seek(r: &mut Self::Reader, line: u64, byte: u64) -> Result<(), (ErrObs, String)>;
@@ -250,6 +251,11 @@ impl Api for Fa {
     fn set_len(set: &Self::Set) -> usize {
         set.len()
     }
+    fn shrink_set(set: &mut Self::Set) {
+        set.shrink_buffer_to_fit();
+        let _ = set.buf_capacity();
+        let _ = set.is_empty();
+    }
     fn set_monitors(set: &Self::Set, ctx: &mut MonCtx) {
         monitors::fasta_set(set, ctx);
     }
@@ -345,6 +351,11 @@ impl Api for Fq {
     }
     fn set_len(set: &Self::Set) -> usize {
         set.len()
+    }
+    fn shrink_set(set: &mut Self::Set) {
+        set.shrink_buffer_to_fit();
+        let _ = set.buf_capacity();
+        let _ = set.is_empty();
     }
     fn set_monitors(set: &Self::Set, ctx: &mut MonCtx) {
         monitors::fastq_set(set, ctx);
@@ -562,6 +573,14 @@ fn drive_api<A: Api>(scn: &ReadScn, cfg: &Cfg, targets: &SeekTargets) -> RunLog 
                 let set = &sets[slot];
                 match vcore::catch(|| A::iter_set(set, &mut ctx)) {
                     Ok(v) => Out::Iter(v),
+                    Err(p) => classify_panic(p),
+                }
+            }
+            Op::ShrinkSet(slot) => {
+                let slot = *slot % N_SLOTS;
+                let set = &mut sets[slot];
+                match vcore::catch(|| A::shrink_set(set)) {
+                    Ok(()) => Out::Noop,
                     Err(p) => classify_panic(p),
                 }
             }
